@@ -461,10 +461,12 @@ def monitor(ck, sc, r):
 # ------------------------------------------------------------------------------------ main
 def replay_body(cases):
     lines = []
+    items = []
     for i, c in enumerate(cases):
         lines.append(f"Definition L{i} : list batch := {coq_list(c['batches'], coq_batch)}.")
-        lines.append(f"Eval vm_compute in (replay {coq_bool(c['none'])} L{i} {coq_list(c['tr'], coq_ev)}, "
-                     f"areplay L{i} {coq_list(c['atr'], coq_aev)}, wf_log L{i}).")
+        items.append(f"(replay {coq_bool(c['none'])} L{i} {coq_list(c['tr'], coq_ev)}, "
+                     f"areplay L{i} {coq_list(c['atr'], coq_aev)}, wf_log L{i})")
+    lines.append("Eval vm_compute in [" + ";\n ".join(items) + "].")
     return "\n".join(lines) + "\n"
 
 
@@ -504,7 +506,7 @@ def check_models(ck, cases, scan_cases, prefix="c03"):
             coq_fail += 1
             ck.log("coq evaluation failed:", out[-600:])
             continue
-        vals = [parse_coq_value(v) for v in parse_eval_outputs(out)]
+        vals = parse_coq_value(parse_eval_outputs(out)[0]) if chunk else []
         if len(vals) != len(chunk):
             coq_fail += 1
             continue
@@ -593,6 +595,12 @@ def collect(ck, scs, results, hist):
             hist["faults"][f["kind"]] = hist["faults"].get(f["kind"], 0) + 1
         hist["iso"][str(sc["iso"])] += 1
         hist["policy"][sc["policy"]] = hist["policy"].get(sc["policy"], 0) + 1
+        nt = str(len(sc.get("tasks") or []))
+        hist["tasks"][nt] = hist["tasks"].get(nt, 0) + 1
+        for ops in (sc.get("logs") or {}).values():
+            hist["legacy_partitions"] += any(op["k"] == "legacy" for op in ops)
+            hist["gzip_batches"] += sum(1 for op in ops if op.get("gzip"))
+            hist["late_appends"] += sum(1 for op in ops if op.get("at") is not None)
         for s in scans_of(sc, r):
             s["sid"] = sc["id"]
             scan_cases.append(s)
@@ -632,7 +640,8 @@ def collect(ck, scs, results, hist):
 def new_hist():
     return {"faults": {}, "iso": {"0": 0, "1": 0}, "policy": {}, "failed_runs": 0, "scans": 0, "scans_with_filter": 0,
             "stale_responses_after_seek": 0, "deliveries": 0, "seeks": 0, "empty_handouts": 0,
-            "invisible_batches": 0, "fetch_errors": 0, "fetch_failures": 0}
+            "invisible_batches": 0, "fetch_errors": 0, "fetch_failures": 0, "legacy_partitions": 0,
+            "gzip_batches": 0, "late_appends": 0, "tasks": {}}
 
 
 def directed_scenarios(base_id):
